@@ -385,17 +385,26 @@ int main(int argc, char** argv)
     fp::Pool pool;
     // (1) the chosen histories first (a run cut short by the deadline has then seen every transaction-wrapped update)
     wh::Stats S;
-    {
-        wh::Config first = g_cfg;
-        first.max_depth = 0;
-        for (auto& h : forced) first.extra.push_back(wh::ParseHist(g_cfg, h));
-        first.want_crash = [](const wh::Run&) { return true; };
-        if (!g_cfg.only.empty()) first.extra.clear();
-        if (g_cfg.only.empty()) S = wh::Explore(first, recorder, pool, initial, g_scratch + "/first");
-        if (S.error) return 2;
-    }
+    auto merge = [&](const wh::Stats& B, bool bfs) {
+        S.histories += B.histories; S.skipped += B.skipped; S.crash_histories += B.crash_histories; S.states_enumerated += B.states_enumerated;
+        S.selfchecked += B.selfchecked; S.ops_logged += B.ops_logged; S.cut_short = S.cut_short || B.cut_short; S.error = S.error || B.error;
+        if (bfs) { S.distinct_states = B.distinct_states; S.completed_depth = B.completed_depth; }
+    };
+    auto run_chosen = [&](const std::vector<std::string>& hs, const std::string& sub) {
+        if (!g_cfg.only.empty() || S.cut_short) return;
+        wh::Config c = g_cfg;
+        c.max_depth = 0;
+        for (auto& h : hs) c.extra.push_back(wh::ParseHist(g_cfg, h));
+        c.want_crash = [](const wh::Run&) { return true; };
+        merge(wh::Explore(c, recorder, pool, initial, g_scratch + sub), false);
+    };
+    run_chosen({"L D", "T S R", "I"}, "/first");
+    if (S.error) return 2;
+    // (2) breadth-first exploration of all histories
+    if (!S.cut_short) merge(wh::Explore(g_cfg, recorder, pool, initial, g_scratch), true);
+    if (S.error) return 2;
 
-    // (2) wallet creation (descriptor set-up transaction)
+    // (3) wallet creation (descriptor set-up transaction)
     uint64_t new_states = 0;
     bool new_done = false;
     if (vx::ctx().replay.empty() && !S.cut_short) {
@@ -448,13 +457,9 @@ int main(int argc, char** argv)
         } else if (st[0] == -2) S.cut_short = true;
         else { printf("HARNESS-ERROR property=C43 recording wallet creation failed (status %d)\n", st[0]); return 2; }
     }
-    // (3) breadth-first exploration of all histories
-    if (!S.cut_short) {
-        wh::Stats B = wh::Explore(g_cfg, recorder, pool, initial, g_scratch);
-        if (B.error) return 2;
-        S.histories += B.histories; S.skipped += B.skipped; S.crash_histories += B.crash_histories; S.states_enumerated += B.states_enumerated;
-        S.selfchecked += B.selfchecked; S.ops_logged += B.ops_logged; S.distinct_states = B.distinct_states; S.completed_depth = B.completed_depth; S.cut_short = B.cut_short;
-    }
+    // (4) the address request (top-up transaction + three single writes)
+    run_chosen({"A"}, "/second");
+    if (S.error) return 2;
     recorder.stop();
 
     E.evaluations += pool.counts["reloads"];
